@@ -375,6 +375,108 @@ def gen_case(rnd, rule=None, small=False, slow_ok=False, flags=None, large=False
     return e, o, text
 
 
+_RULE_PRECISION = {'wigm-prf': 4, 'wigm-prf-batch': 4, 'cfer': 5, 'cfer-batch': 5, 'scotland': 5, 'mpls': 4,
+                   'meek-prf': 9, 'qpq': 9}
+
+
+def gen_coincidence(rnd, rule):
+    """a valid election *solved* for numeric coincidences (DESIGN 14, wave 10 misses): vote totals that land exactly on
+    the quota, surpluses of exactly zero or of one unit in the last place, transfers worth exactly one such unit, ties
+    among the leaders and among the trailers.  Random elections with small multipliers practically never produce these
+    under the fractional-quota rules (quota = V/(s+1) + 1 ulp).
+
+    Construction: V = (s+1)*Q + r ballots; s+1 'big' candidates with first preferences Q+d, d in {-2..+2}; a few 'small'
+    candidates with 1-3 ballots each whose next preference is a big candidate (full-value transfers on defeat); each big
+    candidate has k in {0,1,1,2} single ballots naming another big candidate second (transfers worth k*tv).  With Q+1 in
+    (10^p/2, 10^p) the transfer value of a surplus of 1 - 1ulp is exactly one ulp.
+    returns (election, options)
+    """
+    s = rnd.choice((1, 1, 2, 2, 2, 3))
+    nbig = s + 1
+    nsmall = rnd.choice((1, 1, 2, 2, 3))
+    n = nbig + nsmall
+    o = {'rule': rule}
+    if rule in _RULE_PRECISION:
+        p = _RULE_PRECISION[rule]
+    else:
+        p = rnd.choice((1, 2, 3, 4, 4))
+        o['arithmetic'] = rnd.choice(('fixed', 'fixed', 'guarded'))
+        o['precision'] = p
+        if o['arithmetic'] == 'guarded':
+            o['guard'] = rnd.choice((0, 0, 1, 3))
+        if rule == 'wigm' and rnd.random() < 0.35:
+            o['integer_quota'] = True
+        if rule != 'wigm' and rnd.random() < 0.5:
+            o['omega'] = rnd.randint(1, max(1, p))
+    lift = s >= 2 and rnd.random() < 0.5     # the directed pattern: A on Q+1 with ONE ballot 'A B', B on Q
+    r_ = rnd.random()
+    if lift:
+        Q = rnd.randint(10 ** p // 2, 10 ** p - 2)
+    elif p <= 5 and r_ < 0.6:
+        Q = rnd.randint(10 ** p // 2, 10 ** p - 2)          # surplus 1-ulp -> transfer value exactly 1 ulp
+    elif p <= 5 and r_ < 0.75:
+        Q = rnd.randint(10 ** p // 3, 10 ** p // 2 - 1)     # ... exactly 2 ulp
+    elif r_ < 0.9:
+        Q = rnd.randint(3, 40)
+    else:
+        Q = 10 ** rnd.randint(1, 6)
+    r = 0 if lift else rnd.choice((0, 0, 0, 0, 1, s))
+    V = (s + 1) * Q + r
+    small_votes = [rnd.choice((1, 1, 2, 3)) for _ in range(nsmall)]
+    if rnd.random() < 0.4:
+        small_votes = [small_votes[0]] * nsmall            # ties among the trailers
+    L = sum(small_votes)
+    offs = [rnd.choice((1, 1, 0, 0, 2, -1)) for _ in range(nbig - 1)]
+    if rnd.random() < 0.3 and nbig >= 3:
+        offs[1] = offs[0]                                   # ties among the leaders
+    if lift:
+        offs[0], offs[1] = 1, 0
+    last = V - L - sum(Q + d for d in offs)
+    first = [Q + d for d in offs] + [last]
+    if min(first) < 1:
+        first = [max(1, f) for f in first]
+    # candidate numbering: a random permutation, so that tie order and position vary
+    ids = list(range(1, n + 1))
+    rnd.shuffle(ids)
+    big = ids[:nbig]
+    small = ids[nbig:]
+    ballots = []
+    for i, c in enumerate(big):
+        f = first[i]
+        k = rnd.choice((0, 1, 1, 2))
+        others = [b for b in big if b != c]
+        if lift and i == 0:
+            ballots.append([1, [[c], [big[1]]]])
+            f -= 1
+        elif k and f > k and others:
+            tgt = rnd.choice(others)
+            for _ in range(1 if rnd.random() < 0.7 else k):
+                ballots.append([1 if rnd.random() < 0.7 else k, [[c], [tgt]]])
+                f -= ballots[-1][0]
+        tail = []
+        if rnd.random() < 0.5:
+            rest_ = [x for x in ids if x != c]
+            rnd.shuffle(rest_)
+            tail = [[x] for x in rest_[:rnd.randint(1, len(rest_))]]
+        if f >= 1:
+            ballots.append([f, [[c]] + tail])
+    for j, c in enumerate(small):
+        tgt = rnd.choice(big)
+        nxt = [[tgt]] if rnd.random() < 0.8 else []
+        if rnd.random() < 0.3:
+            nxt.append([rnd.choice([b for b in ids if b != c and [b] not in nxt])])
+        ballots.append([small_votes[j], [[c]] + nxt])
+    rnd.shuffle(ballots)
+    tie = None
+    if rnd.random() < 0.4:
+        tie = list(range(1, n + 1))
+        rnd.shuffle(tie)
+    names = [_name(rnd, i, False) for i in range(n)]
+    e = dict(n=n, seats=s, withdrawn=[], undeclared=[], tie=tie, nick=None, ballots=ballots, ids=False,
+             names=names, title='Coincidence', source=None, comment=None, droop=None, coincidence=True)
+    return e, o
+
+
 def droop_tokens(o, rnd=None):
     "the tokens of a [droop ...] line that embeds the option dict o in a ballot file"
     out = []
